@@ -617,4 +617,59 @@ theorem runCalls_encode_last {M} (c : Codec M) (pre : List (Call M)) (m : M) :
   rw [List.getElem?_append_right (by omega), hl]
   simp
 
+/-! ## histories of one message object -/
+
+theorem runHist_append {M} (c : Codec M) (a b : List (HStep M)) (st : HistState M) :
+    runHist c (a ++ b) st = runHist c b (runHist c a st) := by
+  induction a generalizing st with
+  | nil => rfl
+  | cons x t ih => simp only [List.cons_append, runHist, ih]
+
+theorem histStep_value {M} (c : Codec M) (st : HistState M) (s : HStep M) :
+    (histStep c st s).value = valueAfter [s] st.value := by
+  cases s <;> rfl
+
+theorem histStep_outs {M} (c : Codec M) (st : HistState M) (s : HStep M) :
+    ∃ o, (histStep c st s).outs = st.outs ++ [o] := by
+  cases s <;> exact ⟨_, rfl⟩
+
+theorem valueAfter_cons {M} (s : HStep M) (rest : List (HStep M)) (v : M) :
+    valueAfter (s :: rest) v = valueAfter rest (valueAfter [s] v) := by
+  cases s <;> rfl
+
+theorem valueAfter_append {M} (a b : List (HStep M)) (v : M) :
+    valueAfter (a ++ b) v = valueAfter b (valueAfter a v) := by
+  induction a generalizing v with
+  | nil => rfl
+  | cons x t ih =>
+    rw [List.cons_append, valueAfter_cons, ih, valueAfter_cons x t]
+
+theorem runHist_value {M} (c : Codec M) (steps : List (HStep M)) (st : HistState M) :
+    (runHist c steps st).value = valueAfter steps st.value := by
+  induction steps generalizing st with
+  | nil => rfl
+  | cons x t ih => rw [runHist, ih, histStep_value, ← valueAfter_cons]
+
+theorem runHist_outs_length {M} (c : Codec M) (steps : List (HStep M)) (st : HistState M) :
+    (runHist c steps st).outs.length = st.outs.length + steps.length := by
+  induction steps generalizing st with
+  | nil => rfl
+  | cons x t ih =>
+    obtain ⟨o, ho⟩ := histStep_outs c st x
+    rw [runHist, ih, ho]; simp; omega
+
+theorem runHist_outs_keeps {M} (c : Codec M) (steps : List (HStep M)) (st : HistState M) (i : Nat)
+    (hi : i < st.outs.length) : (runHist c steps st).outs[i]? = st.outs[i]? := by
+  induction steps generalizing st with
+  | nil => rfl
+  | cons x t ih =>
+    obtain ⟨o, ho⟩ := histStep_outs c st x
+    rw [runHist, ih _ (by rw [ho]; simp; omega), ho, List.getElem?_append_left hi]
+
+theorem valueAfter_mutationsOf {M} (steps : List (HStep M)) (v : M) :
+    valueAfter (mutationsOf steps) v = valueAfter steps v := by
+  induction steps generalizing v with
+  | nil => rfl
+  | cons x t ih => cases x <;> simp only [mutationsOf, valueAfter, ih]
+
 end ConfModel.Convert
